@@ -132,7 +132,7 @@ Next == /\ ~done /\ done' = TRUE /\ UNCHANGED <<tg, th, tx, left, ghost>>
            IF ~usable \/ ~r.lim THEN TRUE
            ELSE IF ~Contract(g, h, left, th.root, r) THEN PrintT(<<"CONTRACT-VIOLATION", gc, hc, left>>)
            ELSE PrintT(ToJson([gcalls |-> gc, hcalls |-> hc, left |-> left, right |-> th.root,
-                               ok |-> r.ok, missed |-> r.missed, pre |-> g, hpre |-> h, post |-> r.g,
+                               ok |-> r.ok, missed |-> r.missed, pre |-> g, hpre |-> h, post |-> r.g, log |-> r.log,
                                m |-> {<<k, r.m[k]>> : k \in DOMAIN r.m},
                                reads |-> << ReadAll(r.g, SetToSeq(r.g.present), 1),
                                             ReadAll(r.g, Rev(SetToSeq(r.g.present)), 1) >>]))
